@@ -124,3 +124,11 @@ func inFlags(flags []imap.Flag, n int, f imap.Flag) bool {
 //@   loop 1 invariant forall f imap.Flag :: hasFlag(msg, f) == (old(hasFlag(msg, f)) && !inFlags(store.Flags, i+1, f))
 //@   loop 1 decreases len(store.Flags) - i
 var _ = strings.ToLower
+
+// staticNumSet resolves every range against the right maximum: the number of
+// messages for sequence numbers, the highest UID in use for UIDs.
+//
+//@ func (mbox *MailboxView) staticNumSet(numSet imap.NumSet) (result imap.NumSet)
+//@   props C09:callsite C08:callsite
+//@   requires mbox != nil
+//@   callsite staticNumRange(start, stop *uint32, max uint32) requires start != nil && stop != nil && start != stop && (max == uint32(len(mbox.l)) || max == uint32(mbox.uidNext)-1)
